@@ -30,6 +30,9 @@ type vLink struct {
 	// dropFrom/dropTo: packets number dropFrom..dropTo-1 (counted from the
 	// moment the link is armed) are dropped, whatever they are
 	dropFrom, dropTo, armedSent int
+	// slowData: a DATA packet that is not a ping spends this long inside the
+	// transport's send function (a slow, uninterruptible stream write)
+	slowData time.Duration
 	// ghost log of everything put on the wire (for monitors)
 	wire [][]byte
 }
@@ -43,6 +46,10 @@ func (l *vLink) send(ctx context.Context, b []byte) error {
 	case <-ctx.Done():
 		return ctx.Err()
 	default:
+	}
+	if l.slowData > 0 && len(b) >= 4 && b[0] == DATA && b[3] == FALSE {
+		// a write that cannot be interrupted once it has started
+		time.Sleep(l.slowData)
 	}
 	l.mu.Lock()
 	defer l.mu.Unlock()
